@@ -789,7 +789,7 @@ func isPhiValue(v ssa.Value) bool { _, ok := v.(*ssa.Phi); return ok }
 func init() {
 	register("C10", "Replica repair never targets bad stores nor shrinks healthy replication", func(c *Ctx) {
 		c.Group("C10/selector-filters", "the store selector's filter chain: excluded (region's stores), storage threshold, special use, store state, isolation, caller and rule filters, and a strict store-state gate last", func() { ruleSelectorFilters(c) })
-		c.Group("C10/filter-predicates", "StoreStateFilter's condition lists contain the stated conditions and a match rejects; label-constraint, threshold and excluded filters test what they promise; every filter of a set is evaluated", func() { ruleFilterPredicates(c); ruleLabelKeysCaseInsensitive(c) })
+		c.Group("C10/filter-predicates", "StoreStateFilter's condition lists contain the stated conditions and a match rejects; label-constraint, threshold and excluded filters test what they promise; every filter of a set is evaluated", func() { ruleFilterPredicates(c); ruleLabelKeysCaseInsensitive(c); ruleIsolationFilterFlag(c) })
 		c.Group("C10/low-space", "IsLowSpace exempts only stores without statistics or new stores with enough available space", func() { ruleLowSpaceAtoms(c) })
 		c.Group("C10/candidate-lists-not-rewritten", "the filter package builds subsets in fresh slices: candidate lists are shared with the caller", func() { ruleNoInPlaceCompaction(c) })
 		c.Group("C10/target-from-selector", "every peer added by a checker is placed on the store the selector returned, and only when it returned one", func() { ruleRepairTargets(c) })
@@ -929,5 +929,53 @@ func ruleReplacementAddsItsPeer(c *Ctx) {
 	}
 	if n < 3 {
 		c.Undec(rule, "replacement constructors (remove + peer handed in)", "at least 3", "", fmt.Sprint(n))
+	}
+}
+
+// ruleIsolationFilterFlag: the isolation filter rejects a store whose location
+// equals a constraint list in every label — a missing label value is compared
+// like any other value (PD treats "no label" as a location of its own at that
+// level only through the constraint sets, not by exempting the store). The
+// per-label flag is exactly (value == constraint) ∧ (flag so far).
+func ruleIsolationFilterFlag(c *Ctx) {
+	P := c.P
+	rule := c.Prop + "/filter-predicates"
+	fn := P.Method(filterPkg, "isolationFilter", "Target")
+	c.saw(fnName(fn))
+	glv := F(P.Method("server/core", "StoreInfo", "GetLabelValue"))
+	isA := func(v ssa.Value) bool {
+		bo, ok := v.(*ssa.BinOp)
+		return ok && bo.Op == token.EQL && (valueIsCallTo(bo.X, glv) || valueIsCallTo(bo.Y, glv))
+	}
+	n := 0
+	for _, l := range loopsOf(fn) {
+		for _, ins := range l.header.Instrs {
+			phi, ok := ins.(*ssa.Phi)
+			if !ok {
+				break
+			}
+			if bt, isB := phi.Type().Underlying().(*types.Basic); !isB || bt.Info()&types.IsBoolean == 0 {
+				continue
+			}
+			isOld := func(v ssa.Value) bool { return v == ssa.Value(phi) }
+			for i, e := range phi.Edges {
+				if i >= len(l.header.Preds) || !l.blocks[l.header.Preds[i]] {
+					continue
+				}
+				n++
+				okT, detail := true, ""
+				for _, row := range [][3]bool{{true, true, true}, {false, true, false}, {true, false, false}, {false, false, false}} {
+					r, okE := evalFlag(e, isA, isOld, row[0], row[1], 6)
+					if !okE || r != row[2] {
+						okT = false
+						detail = fmt.Sprintf("label equal=%v, flag so far=%v: gives %v (decided: %v), want %v", row[0], row[1], r, okE, row[2])
+					}
+				}
+				c.Check(okT, rule, "per-label flag of "+fnName(fn), "(store's label value == constraint) ∧ (flag so far), decided by these two alone", P.instrPos(phi), detail)
+			}
+		}
+	}
+	if n == 0 {
+		c.Undec(rule, "per-label flag in "+fnName(fn), "a boolean carried round the constraint loop", P.pos(fn.Pos()), "")
 	}
 }
